@@ -330,6 +330,10 @@ func (d *tDecoder) decodeType(t *tType, b []byte, p unsafe.Pointer, maxdepth int
 				}
 				*(*unsafe.Pointer)(tmp) = sliceV
 				tmp = sliceV
+			} else if vt.T == tSTRUCT {
+				// by-value struct: the tmp slot is reused for every entry (and pooled),
+				// reset it or fields absent from this entry keep the previous entry's values
+				v.SetZero()
 			}
 			if vt.FixedSize > 0 {
 				i += decodeFixedSizeTypes(vt.T, b[i:], tmp)
